@@ -62,8 +62,14 @@
                        is routed to behind its Start/Spawn command). The excluded class is exactly
                        "the client calls resume_process" (for a process that is not there / not
                        sleeping / failed, or twice).
+     step_faults_only_bad_oracle_resume : the same when the client does resume, HONESTLY
+                       (resume_honest_run, boolean form resume_honest_runb in sys/ProtoPremises.v): at
+                       the call the process is routed, sleeping on its worker (finished Ok, persistent,
+                       awaiting nothing) or its StartProcess(sleeping) is queued there, and no
+                       ResumeProcess for it is queued already. A sleeping process stays sleeping under
+                       every worker operation but its own resume (sys/ProtoSleep.v).
    Outside this model: the debug panic of F9 (heap accounting, C06; repaired by b6882e1). *)
-From Quiver Require Import sys.Proto sys.ProtoFail sys.ProtoExamples sys.ProtoErrs sys.ProtoMicro sys.ProtoRouted sys.ProtoErrTok sys.ProtoNoErr.
+From Quiver Require Import sys.Proto sys.ProtoFail sys.ProtoExamples sys.ProtoErrs sys.ProtoMicro sys.ProtoRouted sys.ProtoErrTok sys.ProtoNoErr sys.ProtoPremises.
 
 Theorem C15_failure_local : forall p e h hint w w',
   NoDup (map fst (w_procs w)) ->
@@ -221,3 +227,21 @@ Theorem C15_step_faults_only_bad_oracle_nonvacuous :
   exists s, run (init 2) getresult_schedule = Good s.
 Proof. exact step_faults_only_bad_oracle_applies. Qed.
 Print Assumptions C15_step_faults_only_bad_oracle_nonvacuous.
+
+Theorem C15_step_faults_only_bad_oracle_resume : forall nw sigma f,
+  pid_honest_run (init nw) sigma = true -> resume_honest_run (init nw) sigma -> run (init nw) sigma = Fault f -> is_oracle_fault f.
+Proof. exact step_faults_only_bad_oracle_resume. Qed.
+Print Assumptions C15_step_faults_only_bad_oracle_resume.
+
+Theorem C15_resume_premise_decidable : forall sigma s, resume_honest_runb s sigma = true -> resume_honest_run s sigma.
+Proof. exact resume_honest_runb_sound. Qed.
+Print Assumptions C15_resume_premise_decidable.
+
+Theorem C15_honest_resumes_nonvacuous :
+  (pid_honest_run (init 1) resume_schedule = true /\ resume_honest_run (init 1) resume_schedule /\
+   exists s nd pr, run (init 1) resume_schedule = Good s /\ nth_error (s_nodes s) 0 = Some nd /\
+     alookup 0 (w_procs (n_w nd)) = Some pr /\ p_res pr = Some (ROk 10)) /\
+  (resume_honest_runb (init 1) [X (XStart false); X (XResume 0)] = false /\
+   run (init 1) [X (XStart false); X (XResume 0); W 0 None (orc None idle_did)] = Fault (WorkerErr 3)).
+Proof. exact (conj honest_resumes_apply dishonest_resume_flagged). Qed.
+Print Assumptions C15_honest_resumes_nonvacuous.
